@@ -5,7 +5,11 @@
      sets canBreak; a loop body sets canBreak and canContinue; a continuing block
      clears both and sets inContinuing; restored afterwards;
    * break: one error when !canBreak ("in continuing block" when inContinuing,
-     "outside of loop or switch" otherwise); continue alike; kill: no check;
+     "outside of loop or switch" otherwise); continue alike;
+   * kill: two variants of the repair, selected by [kc]:
+       kc = false  (checks/c08_proposed_fixes/validate.diff): no check, as in WGSL;
+       kc = true   (checks/c08_proposed_fixes/validate_suitesafe.diff): discard inside a
+                   continuing block (any depth) is still reported, exactly as the pinned tree does;
    * validateGlobalVariables no longer looks at bindings; validateEntryPoints
      reports, per entry point, every resource variable statically used by it
      (through calls) whose (group,binding) pair was already seen among the
@@ -19,9 +23,9 @@ Import ListNotations.
 Require Import Naga.IR.Syntax Naga.Valid.ValidatorModel Naga.Valid.Reach Naga.Valid.BindingRule.
 Open Scope Z_scope.
 
-Fixpoint vstmt_fx (E : venv) (cb cc ic : bool) (i : Z) (s : stmt) {struct s} : list verror :=
+Fixpoint vstmt_fx (E : venv) (kc : bool) (cb cc ic : bool) (i : Z) (s : stmt) {struct s} : list verror :=
   let vblock := fix vblock (cb cc ic : bool) (k : Z) (b : list stmt) {struct b} : list verror :=
-      match b with [] => [] | x :: b' => vstmt_fx E cb cc ic k x ++ vblock cb cc ic (k + 1) b' end in
+      match b with [] => [] | x :: b' => vstmt_fx E kc cb cc ic k x ++ vblock cb cc ic (k + 1) b' end in
   let mk := err_stmt (e_fname E) i in
   let ops := bad_operands E mk VStmtOperand in
   match s with
@@ -45,7 +49,7 @@ Fixpoint vstmt_fx (E : venv) (cb cc ic : bool) (i : Z) (s : stmt) {struct s} : l
   | SBreak => when (negb cb) (mk (if ic then VBreakInContinuing else VBreakOutsideLoop))
   | SContinue => when (negb cc) (mk (if ic then VContinueInContinuing else VContinueOutsideLoop))
   | SReturn v => when ic (mk VReturnInContinuing) ++ ops (opt_list v)
-  | SKill => []
+  | SKill => if kc then when ic (mk VKillInContinuing) else []
   | SBarrier _ => []
   | SStore p v => ops [p; v]
   | SAtomic p _ _ v r => ops (p :: v :: opt_list r)
@@ -53,32 +57,32 @@ Fixpoint vstmt_fx (E : venv) (cb cc ic : bool) (i : Z) (s : stmt) {struct s} : l
   | SOther t refs => if other_stmt_checked t then ops refs else []
   end.
 
-Fixpoint vblock_fx (E : venv) (cb cc ic : bool) (k : Z) (b : list stmt) {struct b} : list verror :=
-  match b with [] => [] | x :: b' => vstmt_fx E cb cc ic k x ++ vblock_fx E cb cc ic (k + 1) b' end.
+Fixpoint vblock_fx (E : venv) (kc : bool) (cb cc ic : bool) (k : Z) (b : list stmt) {struct b} : list verror :=
+  match b with [] => [] | x :: b' => vstmt_fx E kc cb cc ic k x ++ vblock_fx E kc cb cc ic (k + 1) b' end.
 
-Fixpoint vcases_fx (E : venv) (cc ic : bool) (i : Z) (has_default : bool)
+Fixpoint vcases_fx (E : venv) (kc : bool) (cc ic : bool) (i : Z) (has_default : bool)
          (cs : list (switch_value * list stmt * bool)) {struct cs} : list verror :=
   match cs with
   | [] => when (negb has_default) (err_stmt (e_fname E) i VSwitchNoDefault)
   | (v, b, _) :: cs' =>
     when (is_default v && has_default) (err_stmt (e_fname E) i VSwitchMultiDefault)
-    ++ vblock_fx E true cc ic 0 b
-    ++ vcases_fx E cc ic i (is_default v || has_default) cs'
+    ++ vblock_fx E kc true cc ic 0 b
+    ++ vcases_fx E kc cc ic i (is_default v || has_default) cs'
   end.
 
-Definition vfunction_fx (m : module) (f : func) : list verror :=
-  vfunction_head m f ++ vblock_fx (env_of m f) false false false 0 (f_body f).
+Definition vfunction_fx (kc : bool) (m : module) (f : func) : list verror :=
+  vfunction_head m f ++ vblock_fx (env_of m f) kc false false false 0 (f_body f).
 
-Fixpoint vfunctions_fx_from (m : module) (names : list string) (fs : list func) : list verror :=
+Fixpoint vfunctions_fx_from (kc : bool) (m : module) (names : list string) (fs : list func) : list verror :=
   match fs with
   | [] => []
   | f :: fs' =>
     let named := negb (String.eqb (f_name f) EmptyString) in
     when (named && str_mem (f_name f) names) (err_mod VFuncDupName)
-    ++ vfunction_fx m f
-    ++ vfunctions_fx_from m (if named then f_name f :: names else names) fs'
+    ++ vfunction_fx kc m f
+    ++ vfunctions_fx_from kc m (if named then f_name f :: names else names) fs'
   end.
-Definition vfunctions_fx (m : module) : list verror := vfunctions_fx_from m [] (m_functions m).
+Definition vfunctions_fx (kc : bool) (m : module) : list verror := vfunctions_fx_from kc m [] (m_functions m).
 
 (* validateGlobalVariables without the binding map *)
 Fixpoint vglobals_fx_from (ntypes nconsts : nat) (names : list string) (gs : list global_var) : list verror :=
@@ -116,8 +120,12 @@ Fixpoint ventries_fx_from (m : module) (names : list string) (eps : list entry_p
   end.
 Definition ventries_fx (m : module) : list verror := ventries_fx_from m [] (m_entry_points m).
 
-Definition validate_model_fx (m : module) : list verror :=
-  vtypes m ++ vconstants m ++ vglobals_fx m ++ vfunctions_fx m ++ ventries_fx m.
+Definition validate_model_fxk (kc : bool) (m : module) : list verror :=
+  vtypes m ++ vconstants m ++ vglobals_fx m ++ vfunctions_fx kc m ++ ventries_fx m.
+
+(* the two repairs *)
+Definition validate_model_fx (m : module) : list verror := validate_model_fxk false m.    (* validate.diff *)
+Definition validate_model_fx2 (m : module) : list verror := validate_model_fxk true m.    (* validate_suitesafe.diff *)
 
 Definition is_binding_fx (c : vclass) : bool := match c with VEpDupBinding => true | _ => false end.
 Definition binding_errors_fx (l : list verror) : list verror := filter (fun e => is_binding_fx (ve_class e)) l.
